@@ -35,6 +35,7 @@ type World struct {
 	Contracts map[string]*Contract // by function key
 	Overlay   map[string][]byte
 	Gen       map[string][]byte
+	Lemmas    map[string]*Lemma
 }
 
 type SpecFn struct {
@@ -122,6 +123,9 @@ func loadRepo(repo string, overlay map[string][]byte) (*World, error) {
 				w.SpecDecls[key] = &SpecFn{Pkg: p, Decl: fd, Obj: obj, Key: key}
 			}
 		}
+	}
+	if err := w.collectLemmas(); err != nil {
+		return nil, err
 	}
 	return w, nil
 }
